@@ -7,14 +7,14 @@ CLAIMED = {
     "C14": dict(engine="fit", level="exploration", design="DESIGN.md section 3 / C14",
         technique="deterministic simulation: seeded search over fit-call orders, declaration orders and re-fit histories of a DependenceFunction DAG with injected optimiser failures; closed-form least-squares reference model",
         text="Seeded exploration of schedules (order of fit calls / declaration, re-fit rounds) and optimiser-failure faults over DAGs of real DependenceFunctions; every end-of-round state is compared with a closed-form (bounded) least-squares reference, local optimality, bounds and constraints. Evidence over the runs explored, not a proof.",
-        note="Trusts numpy.linalg.lstsq / scipy lsq_linear as reference solvers and the harness's own evaluation of the user's shape functions; nonlinear shapes are judged on bounds and local optimality only."),
+        note="Trusts numpy.linalg.lstsq / scipy lsq_linear as reference solvers and the harness's own evaluation of the user's shape functions; nonlinear shapes are judged on bounds and local optimality only. One known finding is listed in known_findings.json (constrained fits whose data or solution lie >= 1e4 times the start parameters away lose the optimum); violations of that call site and input class print KNOWN-FINDING and do not fail the check, everything else does."),
     "C18": dict(engine="spec", level="fault_enumeration", design="DESIGN.md section 3 / C18",
         technique="deterministic simulation with fault injection: every malformation class x position x carrier family x dependence structure injected into an otherwise valid staged pipeline (build, construct, fit, evaluate, contour); fault-free twin as reference",
         text="Complete enumeration of single malformations (class x position x carrier family x conditional_on structure of 1-4 dimensions) plus seeded pairs, each injected into a staged pipeline whose fault-free twin completes; a violation is a stage that returns normally although it computed with the malformed item.",
         note="Trusts the harness's table of the latest admissible stage per malformation class (description faults: the model constructor; others: first stage that computes with the item); any exception type counts as rejection."),
     "C11": dict(engine="fit", level="exploration", design="DESIGN.md section 3 / C11",
         technique="deterministic simulation: seeded histories construct -> (fit | fit with estimator-rejected data | evaluate)* on stateful distribution objects and ConditionalDistributions, (family x fixed-subset) grid walked systematically; scipy frozen distributions as reference model",
-        text="Seeded exploration of construct/fit/failed-fit/evaluate histories over every family and every non-empty proper subset of fixed parameters, with invariants (fixed value retained, evaluation equals the family's law at the current parameters, fit succeeds for supported subsets, conditional evaluation uses the fixed value at every conditioning value) checked after every step.",
+        text="Seeded exploration of construct/fit/failed-fit/evaluate histories over every family and every non-empty proper subset of fixed parameters, with invariants (fixed value retained, evaluation equals the family's law at the current parameters, fit succeeds for supported subsets, conditional evaluation uses the fixed value at every conditioning value, and - for the families with a smooth bounded likelihood - the free parameters are the maximum-likelihood estimates given the fixed ones) checked after every step.",
         note="Trusts scipy.stats frozen distributions as the independent statement of each family's law; numerical estimator failures are inconclusive, keyword-translation failures are violations."),
     "C09": dict(engine="fit", level="exploration", design="DESIGN.md section 3 / C09",
         technique="deterministic simulation: seeded fit histories (first fit, re-fit, re-fit after injected estimator/slicer/optimiser failure) of a GlobalHierarchicalModel and of a twin receiving one step's rows in another order; stand-alone fits as reference model",
@@ -34,7 +34,7 @@ CLAIMED = {
         note="Reference law computed with the harness's own closed forms from the public parameter values; the sampler's documented design (domain (0,100), density threshold 1e-7) is respected by adding the designed-away mass to every tolerance."),
     "C19": dict(engine="hist", level="exploration", design="DESIGN.md section 3 / C19",
         technique="deterministic simulation: seeded interleavings of evaluate / contour / plot / save / slice / fit operations (with injected optimiser failures and global-RNG skews) over several live models in one process; bit-exact object-graph snapshots around every step and projection equivalence against each model's operations run alone",
-        text="Seeded interleavings over 2-4 live models built from fresh predefined-getter calls (same getter possibly twice) with snapshots of every model and every caller array around every step, each evaluation executed twice under the same pinned global-RNG state, fits checked for isolation and template integrity, and every slot's history re-run alone in a fresh universe (projection equivalence).",
+        text="Seeded interleavings over 2-4 live models built from fresh predefined-getter calls (same getter possibly twice) with snapshots of every model and every caller array around every step, each evaluation executed twice under the same pinned global-RNG state, fits checked for isolation and template integrity, every slot's history re-run alone in a fresh universe (projection equivalence), no caller array kept by a model, and the interpreter-wide state (warning filters, numpy error state) unchanged after every operation.",
         note="The snapshot walks __dict__ graphs (floats by hex, arrays by digest); private attributes that appear after creation are treated as caches; unseeded operations may depend on the global RNG state only, which the simulator pins per step."),
 }
 
